@@ -339,7 +339,29 @@ class Build:
             base = attr.s(frozen=True, slots=c["slots"], auto_exc=bool(c["isExc"]), eq=False, repr=False,
                           init=False)(type("FrozenBase", (root,), {}))
             kw["frozen"] = False
-        h = {"ib": ibs, "pre": pre, "post": post, "base": base, "kw": kw,
+        # a plain base whose __getattr__ answers names starting with fb_ (the generated __getattr__ of a slotted
+        # class with cached properties falls back to it through super())
+        if cfg.get("baseGetattr"):
+            def base_getattr(inst, item):
+                if item.startswith("fb_"):
+                    return ("base", item)
+                raise AttributeError(item)
+            base = type("GetattrBase", (base,), {"__slots__": (), "__getattr__": base_getattr})
+
+        def cprop(inst):
+            ctx.log.append(["cprop"])
+            return ("cp", 1)
+
+        def own_getattr(inst, item):
+            if item.startswith("zz_"):
+                return ("own", item)
+            raise AttributeError(item)
+
+        import functools
+        self.has_cprop = bool(case.get("cachedProp")) and api != "make_class"
+        self.has_own_getattr = bool(case.get("ownGetattr")) and api != "make_class"
+        h = {"ib": ibs, "pre": pre, "post": post, "base": base, "kw": kw, "cprop": cprop, "own_getattr": own_getattr,
+             "cached_property": functools.cached_property,
              "deco": (attrs.define if api == "define" else attr.s)(**kw) if api != "make_class" else None,
              "make_class": attr.make_class}
         lines = []
@@ -371,8 +393,12 @@ class Build:
                     lines.append("    def __attrs_pre_init__(self): __h__['pre'](self, (), {})")
             if c["postInit"]:
                 lines.append("    def __attrs_post_init__(self): __h__['post'](self)")
-            if not self.names and not c["preInit"] and not c["postInit"]:
-                lines.append("    pass")
+            if self.has_cprop:
+                lines.append("    @__h__['cached_property']")
+                lines.append("    def cprop_(self): return __h__['cprop'](self)")
+            if self.has_own_getattr:
+                lines.append("    def __getattr__(self, item): return __h__['own_getattr'](self, item)")
+            lines.append("    pass")
         self.source = "\n".join(lines) + "\n"
         md = self.module.__dict__
         md["__h__"] = h
@@ -402,15 +428,31 @@ class Build:
 
     # -------------------------------------------------------------------------------- code objects
     def functions(self):
+        """generated methods of the main script (`_eval_snippets`)"""
         out = {}
         for n in GENERATED:
             fn = self.cls.__dict__.get(n)
-            if isinstance(fn, types.FunctionType) and fn.__code__.co_filename.startswith("<attrs generated"):
+            if isinstance(fn, types.FunctionType) and fn.__code__.co_filename.startswith("<attrs generated methods"):
                 out[n] = fn
         return out
 
+    def getattr_function(self):
+        """the generated cached-property `__getattr__` of a slotted class (`_make_cached_property_getattr`), if any"""
+        fn = self.cls.__dict__.get("__getattr__")
+        if isinstance(fn, types.FunctionType) and fn.__code__.co_filename.startswith("<attrs generated getattr"):
+            return fn
+        return None
+
+    def all_functions(self):
+        out = dict(self.functions())
+        ga = self.getattr_function()
+        if ga is not None:
+            out["__getattr__"] = ga
+        return out
+
     def referenced_names(self):
-        """every name the generated code objects mention (co_names, co_freevars; nested code too)"""
+        """every name the generated code objects mention (co_names, co_freevars; nested code too), including the
+        top-level code of each script (default expressions, the `wrapper` of the __getattr__ script)"""
         names = set()
 
         def walk(co):
@@ -420,14 +462,14 @@ class Build:
                 if isinstance(k, types.CodeType):
                     walk(k)
 
-        fns = self.functions()
-        for fn in fns.values():
+        seen = set()
+        for fn in self.all_functions().values():
             walk(fn.__code__)
-        for fn in fns.values():
-            top = self.toplevel_code(fn)
-            if top is not None:
-                names.update(top.co_names)
-            break
+            if fn.__code__.co_filename not in seen:
+                seen.add(fn.__code__.co_filename)
+                top = self.toplevel_code(fn)
+                if top is not None:
+                    walk(top)
         return names
 
     def toplevel_code(self, fn):
@@ -440,7 +482,8 @@ class Build:
             return None
 
     def loads(self):
-        """[(method tag, global name)] : LOAD_GLOBAL in method bodies, LOAD_NAME at the script's top level"""
+        """[(method tag, global name)] : LOAD_GLOBAL in method bodies, LOAD_NAME at the main script's top level
+        (default expressions), LOAD_GLOBAL in the `wrapper` of the __getattr__ script (its default expressions)"""
         out = set()
         fns = self.functions()
         for n, fn in fns.items():
@@ -454,7 +497,26 @@ class Build:
                     if ins.opname in ("LOAD_NAME", "LOAD_GLOBAL"):
                         out.add(("top", ins.argval))
             break
+        ga = self.getattr_function()
+        if ga is not None:
+            for ins in dis.get_instructions(ga.__code__):
+                if ins.opname in ("LOAD_GLOBAL", "LOAD_NAME"):
+                    out.add(("getattr", ins.argval))
+            top = self.toplevel_code(ga)
+            if top is not None:
+                for k in top.co_consts:
+                    if isinstance(k, types.CodeType) and k.co_name == "wrapper":
+                        for ins in dis.get_instructions(k):
+                            if ins.opname in ("LOAD_GLOBAL", "LOAD_NAME"):
+                                out.add(("getattrTop", ins.argval))
         return sorted(out)
+
+    def globals_for(self, tag):
+        if tag in ("getattr", "getattrTop"):
+            ga = self.getattr_function()
+            return ga.__globals__ if ga is not None else {}
+        fns = self.functions()
+        return next(iter(fns.values())).__globals__ if fns else {}
 
     def classify(self, fn_globals, name):
         """what a global name of the generated functions is bound to, by identity"""
@@ -491,6 +553,8 @@ class Build:
             "id": lambda: v is id, "getattr": lambda: v is getattr, "hash": lambda: v is hash,
             "object": lambda: v is object, "__import__": lambda: v is __import__,
             "NotImplemented": lambda: v is NotImplemented,
+            "cached_properties": lambda: isinstance(v, dict) and set(v) == {"cprop_"} and callable(v["cprop_"]),
+            "original_getattr": lambda: v is None or isinstance(v, types.FunctionType),
         }
         t = fixed.get(name)
         try:
@@ -501,20 +565,17 @@ class Build:
         return {"kind": "other", "arg": type(v).__name__}
 
     def table(self):
-        fns = self.functions()
-        if not fns:
+        if not self.all_functions():
             return []
-        g = next(iter(fns.values())).__globals__
-        return [{"meth": m, "name": n, "obj": self.classify(g, n)} for m, n in self.loads()]
+        return [{"meth": m, "name": n, "obj": self.classify(self.globals_for(m), n)} for m, n in self.loads()]
 
     def group_table(self):
         """for builds from a pool: what each global load finds, by the pool tag of the object (never by field)"""
-        fns = self.functions()
-        if not fns:
+        if not self.all_functions():
             return []
-        g = next(iter(fns.values())).__globals__
         out = []
         for m, n in self.loads():
+            g = self.globals_for(m)
             v = g.get(n, None)
             tag = getattr(v, "_c17_tag", None) if n in g else None
             if tag is not None:
@@ -647,6 +708,12 @@ class Build:
                 setattr(a2, names[-1], 301)
                 return readback(a2)
             fp["setattr_last"] = attempt(setlast)
+        # attribute lookups that go through a generated cached-property __getattr__ (or miss): the cached property
+        # twice (computed once), names answered by an own / a base __getattr__, plain misses
+        fp["lookups"] = [attempt(lambda: ctx.canon(b.cprop_)), attempt(lambda: ctx.canon(b.cprop_)),
+                         attempt(lambda: ctx.canon(b.zz_own)), attempt(lambda: ctx.canon(b.fb_base)),
+                         attempt(lambda: ctx.canon(b.nope_)), attempt(lambda: ctx.canon(getattr(b, "nope_", "dflt"))),
+                         attempt(lambda: hasattr(b, "nope_")), attempt(lambda: hasattr(b, "cprop_"))]
         fp["copy"] = attempt(lambda: readback(copy.copy(b)))
         fp["pickle"] = attempt(lambda: readback(pickle.loads(pickle.dumps(b, 2))))
         fp["hash_after_copy"] = attempt(lambda: hash(copy.copy(b)) == hash(b))
